@@ -526,6 +526,79 @@ def sc4(P, C):
           "with fewer than 3*order+2 knots, and evaluation reads past the coefficients"))
 
 
+def sc5(P, C):
+    """SC-5: the centres are an output: written for every dimension, never read before they were written."""
+    C.rule("SC-5", "searchcenters computes centers[i] from the coordinate and the table alone: in every round of the loop over the dimensions "
+           "that reaches the next round (or the end of the loop) an element store `centers[i] = ..` has been executed, and no element of "
+           "`centers` is read in a round before that store — what the caller's array held before the call (zeros of a fresh vector, the "
+           "centres of the previous point, stack garbage in operator()) has no influence on the result", floor=2)
+    f = search_fn(P)
+    cid = f.params[1]["id"]
+    loops = [i for i in f.walk() if f.k(i) == "ForStmt" and not any(f.k(a) in ("ForStmt", "WhileStmt", "DoStmt") for a in f.ancestors(i))]
+    if len(loops) != 1:
+        raise core.AnalysisBroken("SC-5: expected one loop over the dimensions in searchcenters, found %d" % len(loops))
+    L = loops[0]
+    body = set(f.walk(f.nodes[L]["body"]))
+
+    def is_centers_elem(x):
+        x = f.strip(x)
+        if f.k(x) != "ArraySubscriptExpr":
+            return False
+        b = f.strip(f.nodes[x]["ch"][0])
+        return f.k(b) == "DeclRefExpr" and f.nodes[b]["decl"].get("id") == cid and f.nodes[b]["decl"].get("kind") == "ParmVar"
+    stores = set()
+    for x in body:
+        n = f.nodes[x]
+        if n["k"] == "BinaryOperator" and n.get("op") == "=" and is_centers_elem(n["ch"][0]):
+            stores.add(x)
+    store_lhs = {f.strip(f.nodes[x]["ch"][0]) for x in stores}
+    reads = [x for x in body if is_centers_elem(x) and f.strip(x) == x and x not in store_lhs]
+    # compound assignments and increments read the element too
+    pos = f.node_positions()
+    inc = f.nodes[L].get("inc", -1)
+    inc_nodes = set(f.walk(inc)) if inc is not None and inc >= 0 else set()
+    cond_nodes = set(f.walk(f.nodes[L]["cond"])) if f.nodes[L].get("cond", -1) >= 0 else set()
+    head_blocks = {pos[x][0] for x in cond_nodes if x in pos}
+
+    def transfer(st, e, b, j):
+        if e.get("kind") != "stmt":
+            return st
+        if e["n"] in stores:
+            return True
+        return st
+
+    def edge(st, b, k, s, cond):
+        return False if s in head_blocks and False else st
+    # a round starts at the first element of the body: must-analysis with the state reset on entry to the loop head
+    def transfer2(st, e, b, j):
+        if b in head_blocks:
+            return False if e.get("kind") == "stmt" and e["n"] in cond_nodes else st
+        return transfer(st, e, b, j)
+    IN, OUT = core.dataflow(f, False, transfer2, lambda a, b: a and b)
+    early = []
+    for r in reads:
+        x = r
+        while x >= 0 and x not in pos:
+            x = f.parent[x]
+        if x < 0 or pos[x][0] not in IN:
+            continue
+        b, j = pos[x]
+        st = core.state_before(f, IN, transfer2, b, j)
+        if not st:
+            early.append(r)
+    C.ob("SC-5", "searchcenters", "never-read-before-written", not early, f.loc(early[0]) if early else f.loc(L),
+         "%d read(s) of centers[..] in the loop, %d of them before the round has stored the element%s" %
+         (len(reads), len(early), (": `%s`" % f.render(f.parent[early[0]])[:90]) if early else ""))
+    # every round that goes on to the next one has stored its element: state at the increment (or, without one, on the back edge)
+    inc_pos = [pos[x] for x in inc_nodes if x in pos]
+    ok = bool(stores) and bool(inc_pos)
+    if ok:
+        b, j = min(inc_pos)
+        ok = bool(core.state_before(f, IN, transfer2, b, j))
+    C.ob("SC-5", "searchcenters", "written-in-every-round", ok, f.loc(L),
+         "on every path through a round that reaches the increment an element store centers[i] = .. has been executed (%d store(s) in the loop)" % len(stores))
+
+
 def sc123(P, C):
     C.rule("SC-1", "searchcenters: the only failure exit is guarded, per dimension and before any store to centers[i], by the rejection of "
            "x <= first knot or x > last knot (ordered semantics, modulo negation); `return true` only after the loop; no other exit", floor=3)
